@@ -282,11 +282,17 @@ func BodyOf(rt *rapid.T, p Proto, size string) Body {
 	kinds := kindsOf(p)
 	nsets := rapid.IntRange(1, 4).Draw(rt, "nsets")
 	sibling := make([]bool, nsets+1)
+	// one body in five carries the special label __ttl_days__ (ttl.go)
+	ttlBody := CarriesTTLLabel(p) && rapid.IntRange(0, 4).Draw(rt, "ttl-body") == 0
 	setKind := make([]uint8, nsets) // Influx, Loki JSON: kind is tied to the set (metric chunks need __name__ / identifier names)
 	for i := 0; i < nsets; i++ {
 		k := rapid.SampledFrom(kinds).Draw(rt, "set-kind")
 		setKind[i] = k
-		if p == Influx && i > 0 && setKind[i-1] == KindMetric && k == KindMetric && rapid.Bool().Draw(rt, "sibling") {
+		if p == Influx && ttlBody && i > 0 && setKind[i-1] == KindMetric {
+			k = KindMetric // lines with two numeric fields: the label buffer reaches the builder twice
+			setKind[i] = k
+		}
+		if p == Influx && i > 0 && setKind[i-1] == KindMetric && k == KindMetric && (ttlBody || rapid.Bool().Draw(rt, "sibling")) {
 			// sibling field of the previous set: same measurement and tags, other field
 			prev := b.Sets[i-1]
 			ls := append([]Label(nil), prev[:len(prev)-1]...)
@@ -295,7 +301,36 @@ func BodyOf(rt *rapid.T, p Proto, size string) Body {
 			sibling[i] = true
 			continue
 		}
-		b.Sets = append(b.Sets, drawSet(rt, p, k == KindMetric))
+		set := drawSet(rt, p, k == KindMetric)
+		if ttlBody && (i == 0 || rapid.Bool().Draw(rt, "ttl-here")) {
+			// position first / middle / last of the set (the chunk's Perm then decides the
+			// wire order); Influx keeps measurement first and __name__ last
+			lo, hi := 0, 0
+			if p == Influx {
+				lo = 1
+				if k == KindMetric {
+					hi = 1
+				}
+			}
+			pos := []int{0, len(set) / 2, len(set)}[rapid.IntRange(0, 2).Draw(rt, "ttl-pos")]
+			set = InsertTTLLabel(set, pos, DrawTTLValue(rt), lo, hi)
+		}
+		b.Sets = append(b.Sets, set)
+	}
+	if ttlBody && rapid.Bool().Draw(rt, "ttl-twin") {
+		// the same stream pushed without the special label (and, when no TTL comes with the
+		// request, therefore the same series)
+		var twin []Label
+		for _, l := range b.Sets[0] {
+			if l.Name != TTLLabel {
+				twin = append(twin, l)
+			}
+		}
+		if len(twin) > 0 {
+			b.Sets = append(b.Sets, twin)
+			setKind = append(setKind, setKind[0])
+			sibling = append(sibling, false)
+		}
 	}
 	// a set equal to another after sanitisation (the same series by definition) for the
 	// protocols that sanitise arbitrary names: see AliasSpelling
@@ -320,6 +355,11 @@ func BodyOf(rt *rapid.T, p Proto, size string) Body {
 	seq := 0
 	for ci := 0; ci < nchunks; ci++ {
 		si := rapid.IntRange(0, len(b.Sets)-1).Draw(rt, "set")
+		if p == Influx && ttlBody && ci > 0 {
+			if ps := b.Chunks[ci-1].Set; ps+1 < len(b.Sets) && ps+1 < len(sibling) && sibling[ps+1] {
+				si = ps + 1 // follow a set with its sibling field: one line, two fields
+			}
+		}
 		c := Chunk{Set: si, Perm: rapid.Uint64().Draw(rt, "perm"), Style: rapid.Uint16().Draw(rt, "cstyle")}
 		kind := setKind[si]
 		legacy := p == LokiJSON && GoIdentSet(b.Sets[si]) && (kind == KindMetric || c.Style&LokiLegacy != 0)
@@ -397,6 +437,9 @@ func BodyOf(rt *rapid.T, p Proto, size string) Body {
 				c.Bulk = rapid.IntRange(1, 8).Draw(rt, "bulk")
 			}
 		}
+		if p == PromRW && ttlBody && HasTTLLabel(b.Sets[si]) >= 0 && c.Bulk < 1001 && rapid.Bool().Draw(rt, "ttl-flush") {
+			c.Bulk = rapid.IntRange(1001, 1300).Draw(rt, "bulk") // the series is flushed in two pieces
+		}
 		if c.Bulk > 0 {
 			c.BulkKind = bulkKind
 			c.BulkTs = drawTs(rt, unit)
@@ -411,7 +454,7 @@ func BodyOf(rt *rapid.T, p Proto, size string) Body {
 		if c.Fan > 0 {
 			c.FanStep = unit * int64(rapid.IntRange(0, 2).Draw(rt, "fstep"))
 		}
-		if p == Influx && ci > 0 && sibling[si] && b.Chunks[ci-1].Set == si-1 && rapid.Bool().Draw(rt, "multi-field") {
+		if p == Influx && ci > 0 && sibling[si] && b.Chunks[ci-1].Set == si-1 && (ttlBody || rapid.Bool().Draw(rt, "multi-field")) {
 			// same timestamps as the previous chunk: written as one line with two fields
 			prev := &b.Chunks[ci-1]
 			prev.Fan, prev.Style = 0, prev.Style|8
